@@ -29,6 +29,19 @@ fn c10_entry_layout_name1() { entry_layout::<1>(b"a"); }
 #[kani::unwind(70)]
 fn c10_entry_layout_name63() { entry_layout::<63>(b"0123456789abcdef0123456789abcdef0123456789abcdef0123456789abcde"); }
 
+/// the name field holds the name's UTF-8 *bytes* (2-, 3- and 4-byte characters: U+00E9, U+20AC, U+1F600)
+#[kani::proof]
+#[kani::unwind(70)]
+fn c10_entry_layout_non_ascii_name() { entry_layout::<13>(&[b'c', 0xC3, 0xA9, b'_', 0xE2, 0x82, 0xAC, b'_', 0xF0, 0x9F, 0x98, 0x80, b'x']); }
+/// every 5-byte ASCII name (symbolic bytes, NUL excluded)
+#[kani::proof]
+#[kani::unwind(70)]
+fn c10_entry_layout_symbolic_ascii_name5() {
+    let name: [u8; 5] = kani::any();
+    kani::assume(name[0] != 0 && name[0] < 0x80 && name[1] != 0 && name[1] < 0x80 && name[2] != 0 && name[2] < 0x80 && name[3] != 0 && name[3] < 0x80 && name[4] != 0 && name[4] < 0x80);
+    entry_layout::<5>(&name);
+}
+
 /// table header: magic, 1024 @24, entries*96 @28, records from 0x400
 #[kani::proof]
 #[kani::unwind(70)]
